@@ -759,28 +759,23 @@ CHECKS["C16"] = {
 }
 
 
-def glob_to_re(g):
-    """documented glob forms of globset (default options: `*` also crosses `/`)"""
-    import re as _re
-    out, i = "", 0
-    while i < len(g):
-        if g.startswith("**/", i):
-            out += "(?:.*/)?"; i += 3
-        elif g.startswith("/**", i) and i + 3 == len(g):
-            out += "/.*"; i += 3
-        elif g.startswith("**", i):
-            out += ".*"; i += 2
-        elif g[i] == "*":
-            out += ".*"; i += 1
-        elif g[i] == "?":
-            out += "."; i += 1
-        else:
-            out += _re.escape(g[i]); i += 1
-    return _re.compile("^" + out + "$", _re.S)
-
-
-def glob_match(globs, path):
-    return any(glob_to_re(g).match(path) for g in globs)
+def model_glob_table(prop, queries):
+    """[(globs, ignores, path)] -> [(allow, ignore)] according to the Lean glob model (Bw.Glob, the proved matcher)"""
+    d = os.path.join(K.WORK, prop, "globq")
+    __import__("shutil").rmtree(d, ignore_errors=True); os.makedirs(d)
+    with open(os.path.join(d, "cases.jsonl"), "w") as f:
+        for g, i, p in queries:
+            f.write(json.dumps({"op": "glob", "globs": g, "ignores": i, "path": p}) + "\n")
+    K.run_model(os.path.join(d, "cases.jsonl"), os.path.join(d, "model.jsonl"))
+    out = []
+    for line in open(os.path.join(d, "model.jsonl")):
+        m = json.loads(line)
+        if "outside" in m:
+            raise K.Broken("a generated glob is outside the modelled fragment")
+        out.append((m["allow"], m["ignore"]))
+    if len(out) != len(queries):
+        raise K.Broken("glob model: stream length mismatch")
+    return out
 
 
 C15_EXT = [("py", "# "), ("rs", "// "), ("js", "// "), ("toml", "# "), ("sh", "# "), ("go", "// ")]
@@ -840,21 +835,64 @@ def c15_scenario(rnd, k):
     eff_globs = globs if globs else (["**"] if terminal else [])
     scan = bool(eff_globs)
     walk = [p for p in allf if not hidden(p) and not ignored_git(p)]
-    allow = [p for p in walk if glob_match(eff_globs, p)]
-    ign = [p for p in allf if glob_match(ignores, p)]
-    raw = {"files": [{"path": p, "text": t} for p, t in allf.items()], "walk": walk, "allow": allow, "ignore": ign, "scan": scan,
-           "meta": {"gen": "scope", "k": k, "globs": globs, "ignores": ignores, "sub": sub, "terminal": terminal, "diff_files": diff_files}}
+    # `allow` / `ignore` are filled in from the Lean glob model (c15_fill_scope)
+    raw = {"files": [{"path": p, "text": t} for p, t in allf.items()], "walk": walk, "allow": None, "ignore": None, "scan": scan,
+           "meta": {"gen": "scope", "k": k, "globs": globs, "eff_globs": eff_globs, "ignores": ignores, "sub": sub, "terminal": terminal, "diff_files": diff_files}}
     if with_diff:
         raw["diff"] = diff
     return raw
 
 
+def c15_fill_scope(prop, raws):
+    """which paths the positional / --ignore globs of each scenario select, per the Lean glob model"""
+    queries, where = [], []
+    for r in raws:
+        for f in r["files"]:
+            queries.append((r["meta"]["eff_globs"], r["meta"]["ignores"], f["path"]))
+            where.append((r, f["path"]))
+    for r in raws:
+        r["allow"], r["ignore"] = [], []
+    for (r, p), (a, i) in zip(where, model_glob_table(prop, queries)):
+        if a and p in r["walk"]:
+            r["allow"].append(p)
+        if i:
+            r["ignore"].append(p)
+
+
+def c15_globs(rep, tier, seed):
+    """globset + flag parsing + PathCheckerImpl (in-process) vs the Lean glob model on generated (glob set, path) pairs"""
+    n = n_for(tier, 60000, 1500000)
+    rows = K.run_component(rep.prop, "glob", [], seed, n, tier)
+    bad = 0
+    for case, impl, model in rows:
+        rep.evaluations += 1
+        rep.traces += 1
+        if "outside" in model:
+            rep.count("glob:outside-fragment")
+            continue
+        key = "glob:" + ("err" if "allow" not in impl else f"allow={impl['allow']},ignore={impl['ignore']}")
+        rep.count(key)
+        if impl.get("allow") or impl.get("ignore"):
+            rep.nontrivial.add(K.canon(case))
+        if impl != model:
+            bad += 1
+            if bad <= 3:
+                rep.violation({"property": rep.prop, "component": "globs (in-process)",
+                               "what": "the real glob set (flags -> globset -> PathCheckerImpl) and the proved glob matcher disagree on a path",
+                               "case": case, "impl": impl, "model": model})
+    if len(rep.samples) < 4 and rows:
+        rep.samples.append({"case": rows[0][0], "impl": rows[0][1], "model": rows[0][2]})
+
+
 def c15_run(rep, tier, seed, tr):
     import cli as C, random
+    rep.rules.append("glob sets: 1-3 positional and 0-2 --ignore globs built from literal pieces (ASCII, spaces, dots, `]`, `,`, `!`, multi-byte UTF-8), `?`, `*`, `**`, `/` in every combination plus the documented forms, against paths derived from the globs (wildcards expanded, then damaged) or random; the real flag parsing + globset + PathCheckerImpl in-process vs the Lean matcher; non-trivial = some glob matches")
+    c15_globs(rep, tier, seed)
     rep.rules.append("generated trees (nested directories incl. a/ b/ b/b/, names with spaces and dots, hidden files and directories, .gitignore with exact / directory / *.ext entries, grammar-less files) x 0-3 positional globs x 0-3 --ignore globs from the documented forms x diffs naming files inside / outside the globs (incl. hidden and git-ignored ones) x start directory (root or a subdirectory); the set of files `list` prints vs the model's scope formula and the in-process parse_blocks; non-trivial = at least one file listed")
     n = n_for(tier, 300, 3000)
     rnd = random.Random(seed)
     raws = [c15_scenario(rnd, k) for k in range(n)]
+    c15_fill_scope(rep.prop, raws)
     d = os.path.join(K.WORK, rep.prop, "scope")
     _sh = __import__("shutil"); _sh.rmtree(d, ignore_errors=True); os.makedirs(d)
     with open(os.path.join(d, "raw.jsonl"), "w") as f:
@@ -922,8 +960,8 @@ def c15_run(rep, tier, seed, tr):
 
 CHECKS["C15"] = {
     "module": "Bw.Props.C15", "needs_binary": True,
-    "level_note": DEFAULT_LEVEL_NOTE + " Partial: the `ignore` crate's walk (hidden / git-ignored files) and `globset` matching are dependencies; the documented glob forms are re-implemented as a reference matcher and compared through the binary, not proved.",
-    "trusted_base": TB_COMMON + ["reference glob matcher and hidden/.gitignore expectations in checks/registry.py (c15_scenario)"],
+    "level_note": DEFAULT_LEVEL_NOTE + " Partial: the `ignore` crate's walk (hidden / git-ignored files) is a dependency whose expectations are stated in the scenario generator; `globset` is modelled (parser + matcher, fragment without classes / alternates / escapes) and tied by the in-process correspondence.",
+    "trusted_base": TB_COMMON + ["hidden/.gitignore expectations in checks/registry.py (c15_scenario)", "glob fragment: `[..]`, `{..}` and `\\` escapes are outside the Lean glob model"],
     "run": c15_run,
 }
 
@@ -1430,7 +1468,16 @@ def replay(prop, path):
     K.run_model(cp, os.path.join(d, "model.jsonl"))
     impl = json.loads(open(os.path.join(d, "impl.jsonl")).readline())
     model = json.loads(open(os.path.join(d, "model.jsonl")).readline())
-    diffs = K.compare_outcome(impl, model)
+    if case.get("op") == "glob":
+        diffs = [] if impl == model or "outside" in model else [("glob", impl, model)]
+    elif case.get("op") == "lookup":
+        by_parser = {}
+        for ext, parser in K.translate()["ext"]:
+            by_parser.setdefault(parser, []).append(ext)
+        want = sorted(by_parser[model]) if isinstance(model, str) else None
+        diffs = [] if impl.get("class") == want else [("lookup", impl.get("class"), want)]
+    else:
+        diffs = K.compare_outcome(impl, model)
     print("impl :", json.dumps(impl))
     print("model:", json.dumps(model))
     for f, a, b in diffs:
